@@ -5,6 +5,7 @@ let channels : (string * ((string * string) list -> string)) list = [
   ("clistep", Chan_art.run_step);
   ("flags", Chan_flags.run_flags);
   ("jprops", Chan_flags.run_jprops);
+  ("visit", Chan_visit.run);
 ]
 
 let () =
